@@ -45,6 +45,9 @@ var faults = []string{"ok", "lag", "drop", "slow", "glacial", "tcok", "tcstall",
 // recoverable faults: a conformant resolver can still obtain the answer.
 var recoverable = map[string]bool{"ok": true, "lag": true, "tcok": true, "wrongid": true, "wrongq": true}
 
+// zones whose resolution lasts about as long as the query budget
+var slowZone = map[string]bool{"drop": true, "slow": true, "glacial": true, "tcstall": true, "flaky": true}
+
 const zoneAddr = "192.0.2.77"
 
 // ---------------------------------------------------------------- probe handler
@@ -95,7 +98,7 @@ func (p *probe) ServeDNS(ctx context.Context, ch *middleware.Chain) {
 		p.plain[key]++
 	}
 	p.mu.Unlock()
-	if raw != nil && len(raw) > 22 && bytes.HasPrefix(bytes.ToLower(raw[12:]), []byte("\x08stagedho")) {
+	if raw != nil && len(raw) > 22 && raw[12] >= 8 && bytes.EqualFold(raw[13:21], []byte("stagedho")) {
 		q := new(dns.Msg)
 		if q.Unpack(raw) == nil && len(q.Question) == 1 {
 			m := new(dns.Msg)
@@ -134,7 +137,8 @@ type sysEnv struct {
 	cancel  context.CancelFunc
 	garbage *garbageServer
 	flaky   atomic.Int64
-	small   bool // tiny concurrency limits
+	small   bool   // tiny concurrency limits
+	kind    string // n: ample limits, i: tiny ingress pool, r: tiny resolver limits
 	qto     time.Duration
 	uto     time.Duration
 	baseG   int // sdns goroutines after start-up + warm-up
@@ -146,6 +150,12 @@ type sysEnv struct {
 }
 
 var env *sysEnv
+
+const (
+	sysQueryTimeout    = 1200 * time.Millisecond
+	sysUpstreamTimeout = 250 * time.Millisecond
+	sysListenMargin    = 2 * time.Second
+)
 
 func freePort() int {
 	for i := 0; i < 100; i++ {
@@ -298,10 +308,11 @@ func otherQuestion(req *dns.Msg) *dns.Msg {
 }
 
 // newSysEnv builds world + server. small selects tiny concurrency limits.
-func newSysEnv(small bool, dedupTimeout time.Duration) *sysEnv {
-	e := &sysEnv{small: small, probe: &probe{inline: map[string]int{}, replay: map[string]int{}, plain: map[string]int{}}}
-	e.qto = 1500 * time.Millisecond
-	e.uto = 300 * time.Millisecond
+func newSysEnv(kind string, dedupTimeout time.Duration) *sysEnv {
+	small := kind != "n"
+	e := &sysEnv{small: small, kind: kind, probe: &probe{inline: map[string]int{}, replay: map[string]int{}, plain: map[string]int{}}}
+	e.qto = sysQueryTimeout
+	e.uto = sysUpstreamTimeout
 	e.w = l3.NewWorld(false)
 	e.w.AddZone("test.", l3.ZoneOpts{})
 	for _, f := range faults {
@@ -357,13 +368,10 @@ func newSysEnv(small bool, dedupTimeout time.Duration) *sysEnv {
 			s.SetBehaviour(l3.Behaviour{Rcode: func(dns.Question) int { return dns.RcodeRefused }})
 		case "mix":
 			s.SetBehaviour(l3.Behaviour{Rcode: func(q dns.Question) int {
-				switch len(q.Name) % 3 {
-				case 0:
+				if (len(q.Name)+int(q.Qtype))%2 == 0 {
 					return dns.RcodeServerFailure
-				case 1:
-					return dns.RcodeRefused
 				}
-				return dns.RcodeNotImplemented
+				return dns.RcodeRefused
 			}})
 		case "flaky": // every other query is dropped, the rest answered
 			s.SetBehaviour(l3.Behaviour{Drop: func(dns.Question, bool) bool { return e.flaky.Add(1)%2 == 1 }})
@@ -390,10 +398,12 @@ func newSysEnv(small bool, dedupTimeout time.Duration) *sysEnv {
 	cfg.Bind = fmt.Sprintf("127.0.0.1:%d", freePort())
 	cfg.RecursionFirewall.FailureCacheMinTTL.Duration = 2 * time.Second
 	cfg.RecursionFirewall.FailureCacheMaxTTL.Duration = 4 * time.Second
-	if small {
-		cfg.MaxConcurrentQueries = 6
+	switch kind {
+	case "i": // tiny ingress pool: queries queue behind two workers / run on overflow goroutines
 		cfg.IngressWorkers = 2
 		cfg.IngressQueue = 1
+	case "r": // tiny resolver limits: capacity-refused resolutions
+		cfg.MaxConcurrentQueries = 6
 	}
 	cfg.IngressTCPConns = 256
 	e.cfg = cfg
@@ -704,4 +714,442 @@ func sdnsGoroutines() (sdns, all int) {
 	return
 }
 
-var _ = vlib.B
+
+// ---------------------------------------------------------------- waves
+
+// group is one arrival pattern against one fault zone.
+type group struct {
+	pattern string
+	zone    string
+	n       int
+	tag     string
+	clients []*client
+	judged  []*client // clients whose reply count the property fixes
+}
+
+func (e *sysEnv) id() uint16 {
+	e.nextID++
+	return uint16(e.nextID*7 + 1000)
+}
+
+func (e *sysEnv) mk(kind, zone, label string, qtype uint16) *client {
+	return &client{kind: kind, zone: zone, name: strings.ToLower(label + "." + zone + ".test."), qtype: qtype, id: e.id()}
+}
+
+// build expands a group spec into its clients.
+func (e *sysEnv) build(g *group) {
+	lbl := func(i int) string { return fmt.Sprintf("d%dx%s", i, g.tag) }
+	same := "s" + g.tag
+	add := func(c *client, judged bool) {
+		g.clients = append(g.clients, c)
+		if judged {
+			g.judged = append(g.judged, c)
+		}
+	}
+	switch g.pattern {
+	case "dupudp":
+		for i := 0; i < g.n; i++ {
+			add(e.mk("udp", g.zone, same, dns.TypeA), true)
+		}
+	case "duptcp":
+		for i := 0; i < g.n; i++ {
+			add(e.mk("tcp", g.zone, same, dns.TypeA), true)
+		}
+	case "dupmix":
+		kinds := []string{"udp", "tcp", "msg"}
+		for i := 0; i < g.n; i++ {
+			add(e.mk(kinds[i%3], g.zone, same, dns.TypeA), true)
+		}
+	case "distudp":
+		for i := 0; i < g.n; i++ {
+			add(e.mk("udp", g.zone, lbl(i), dns.TypeA), true)
+		}
+	case "disttcp":
+		for i := 0; i < g.n; i++ {
+			add(e.mk("tcp", g.zone, lbl(i), dns.TypeA), true)
+		}
+	case "pipetcp":
+		for i := 0; i < g.n; i++ {
+			c := e.mk("pipe", g.zone, lbl(i), dns.TypeA)
+			add(c, true)
+		}
+	case "earlyclose": // clients that hang up; the rest of the same-name cohort stays
+		for i := 0; i < g.n; i++ {
+			c := e.mk("tcpclose", g.zone, same, dns.TypeA)
+			c.cancelAfter = time.Duration(20+37*i) * time.Millisecond
+			add(c, false)
+		}
+		add(e.mk("udp", g.zone, same, dns.TypeA), true)
+		add(e.mk("tcp", g.zone, same, dns.TypeA), true)
+	case "cancelmsg": // one identical-name client cancels its context; the others wait on
+		c := e.mk("msg", g.zone, same, dns.TypeA)
+		c.cancelAfter = 60 * time.Millisecond
+		add(c, false)
+		for i := 1; i < g.n; i++ {
+			add(e.mk([]string{"udp", "tcp", "msg"}[i%3], g.zone, same, dns.TypeA), true)
+		}
+	case "cancellead": // distinct names of one zone share upstream lookups; one requester cancels
+		c := e.mk("msg", g.zone, "c"+g.tag, dns.TypeA)
+		c.cancelAfter = 60 * time.Millisecond
+		add(c, false)
+		for i := 1; i < g.n; i++ {
+			add(e.mk([]string{"udp", "tcp"}[i%2], g.zone, lbl(i), dns.TypeA), true)
+		}
+	case "hot": // a name answered before: the inline / wire hit path
+		for i := 0; i < g.n; i++ {
+			add(e.mk([]string{"udp", "tcp"}[i%2], g.zone, "hot", dns.TypeA), true)
+		}
+	case "staged": // the probe handler writes on the inline pass AND marks hand-off
+		for i := 0; i < g.n; i++ {
+			add(e.mk("udp", "ok", fmt.Sprintf("stagedho%dx%s", i, g.tag), dns.TypeTXT), true)
+		}
+	case "half": // a TCP client that announces a frame and never completes it: not an admitted query
+		for i := 0; i < g.n; i++ {
+			add(e.mk("half", g.zone, same, dns.TypeA), false)
+		}
+		add(e.mk("tcp", g.zone, lbl(0), dns.TypeA), true)
+	}
+}
+
+func (e *sysEnv) runHalf(c *client, hold time.Duration) {
+	conn, err := net.Dial("tcp", e.addr)
+	if err != nil {
+		return
+	}
+	defer conn.Close()
+	b, _ := e.newQuery(c).Pack()
+	out := []byte{byte(len(b) >> 8), byte(len(b))}
+	out = append(out, b[:len(b)/2]...)
+	conn.Write(out)
+	time.Sleep(hold)
+}
+
+// launch starts every client of the groups and waits for the listening window.
+func (e *sysEnv) launch(gs []*group) {
+	listen := e.qto + sysListenMargin
+	var wg sync.WaitGroup
+	for _, g := range gs {
+		var pipe []*client
+		for _, c := range g.clients {
+			c := c
+			switch c.kind {
+			case "udp":
+				wg.Add(1)
+				go func() { defer wg.Done(); e.runUDP(c, listen) }()
+			case "tcp":
+				wg.Add(1)
+				go func() { defer wg.Done(); e.runTCP([]*client{c}, listen, 0) }()
+			case "tcpclose":
+				wg.Add(1)
+				go func() { defer wg.Done(); e.runTCP([]*client{c}, listen, c.cancelAfter) }()
+			case "msg":
+				wg.Add(1)
+				go func() { defer wg.Done(); e.runMsg(c, listen) }()
+			case "half":
+				wg.Add(1)
+				go func() { defer wg.Done(); e.runHalf(c, 600*time.Millisecond) }()
+			case "pipe":
+				pipe = append(pipe, c)
+			}
+		}
+		if len(pipe) > 0 {
+			p := pipe
+			wg.Add(1)
+			go func() { defer wg.Done(); e.runTCP(p, listen, 0) }()
+		}
+	}
+	wg.Wait()
+}
+
+func expectedAnswer(c *client) string {
+	if c.qtype == dns.TypeTXT {
+		return c.name + " 0 in txt \"inline\""
+	}
+	return c.name + " 0 in a " + zoneAddr
+}
+
+type verdict struct {
+	fail string // first hard failure ("" = none)
+	soft []*group
+	tags []string
+}
+
+// judge applies the property text to what the clients saw.
+func (e *sysEnv) judge(gs []*group) verdict {
+	var v verdict
+	fail := func(sig, detail string) {
+		if v.fail == "" {
+			v.fail = fmt.Sprintf("FAIL sig=%s %s", sig, detail)
+		}
+	}
+	total, nOK, nSF := 0, 0, 0
+	for _, g := range gs {
+		softHit := false
+		for _, c := range g.judged {
+			total++
+			kind := c.kind
+			where := fmt.Sprintf("%s/%s/%s", g.pattern, kind, g.zone)
+			if c.errs != "" {
+				fail("sys/client-error/"+kind, where+" "+c.errs)
+				continue
+			}
+			switch {
+			case len(c.replies) == 0:
+				if e.kind == "i" && kind == "udp" && slowZone[g.zone] {
+					// candidate finding (notes/C11.md): a job parked in the ready queue
+					// for its whole budget is dropped without a SERVFAIL
+					fail("sys/no-reply/expired-in-ingress-queue", fmt.Sprintf("%s name=%s id=%d", where, c.name, c.id))
+					continue
+				}
+				fail("sys/no-reply/"+where, fmt.Sprintf("name=%s id=%d other=%d eof=%v", c.name, c.id, c.other, c.eof))
+				continue
+			case len(c.replies) > 1:
+				fail("sys/duplicate-reply/"+where, fmt.Sprintf("name=%s id=%d n=%d", c.name, c.id, len(c.replies)))
+				continue
+			}
+			r := c.replies[0]
+			if r.at > e.maxLat {
+				e.maxLat = r.at
+			}
+			switch r.rcode {
+			case dns.RcodeSuccess:
+				nOK++
+				if r.ans != expectedAnswer(c) && !(g.pattern == "staged" && r.ans == c.name+" 0 in txt \"plain\"") {
+					fail("sys/wrong-answer/"+g.zone, fmt.Sprintf("name=%s got=%q", c.name, r.ans))
+				}
+			case dns.RcodeServerFailure:
+				nSF++
+				if recoverable[g.zone] && !e.small {
+					softHit = true
+				}
+			default:
+				fail("sys/failure-not-servfail/"+g.zone, fmt.Sprintf("name=%s rcode=%s", c.name, dns.RcodeToString[r.rcode]))
+			}
+			if r.at > e.qto+3*time.Second {
+				fail("sys/late-reply/"+where, fmt.Sprintf("after=%s", r.at))
+			}
+			if c.other > 0 {
+				fail("sys/foreign-message/"+where, fmt.Sprintf("name=%s n=%d", c.name, c.other))
+			}
+		}
+		if softHit {
+			v.soft = append(v.soft, g)
+		}
+		// cancelled / departed clients: never more than one reply either
+		for _, c := range g.clients {
+			if len(c.replies) > 1 {
+				fail("sys/duplicate-reply/"+g.pattern+"/"+c.kind+"/"+g.zone, fmt.Sprintf("name=%s id=%d n=%d (departed client)", c.name, c.id, len(c.replies)))
+			}
+		}
+		// replay bookkeeping of the probe handler (UDP only)
+		e.probe.mu.Lock()
+		for _, c := range g.clients {
+			if c.kind != "udp" {
+				continue
+			}
+			buf := make([]byte, 300)
+			off, err := dns.PackDomainName(c.name, buf, 0, nil, false)
+			if err != nil {
+				continue
+			}
+			key := fmt.Sprintf("%d/%x", c.id, buf[:off])
+			if n := e.probe.replay[key]; n > 1 {
+				fail("sys/replayed-more-than-once/"+g.pattern, fmt.Sprintf("name=%s replays=%d", c.name, n))
+			}
+			if g.pattern == "staged" && e.probe.replay[key] > 0 {
+				fail("sys/staged-reply-replayed", fmt.Sprintf("name=%s replays=%d", c.name, e.probe.replay[key]))
+			}
+			if e.probe.inline[key]+e.probe.plain[key] > 1 {
+				fail("sys/served-twice/"+g.pattern, fmt.Sprintf("name=%s inline=%d plain=%d", c.name, e.probe.inline[key], e.probe.plain[key]))
+			}
+		}
+		e.probe.mu.Unlock()
+	}
+	v.tags = append(v.tags, fmt.Sprintf("q=%d", total), fmt.Sprintf("noerror=%d", nOK), fmt.Sprintf("servfail=%d", nSF))
+	return v
+}
+
+func parseGroups(spec string) []*group {
+	var gs []*group
+	for _, part := range strings.Split(spec, ";") {
+		f := strings.Split(part, ":")
+		if len(f) != 4 {
+			return nil
+		}
+		gs = append(gs, &group{pattern: f[0], zone: f[1], n: vlib.Atoi(f[2]), tag: f[3]})
+	}
+	return gs
+}
+
+// execSys runs one "sys …" op.
+func execSys(f []string) vlib.Res {
+	if len(f) < 2 {
+		return vlib.Res{Impl: "bad-op"}
+	}
+	switch f[1] {
+	case "new":
+		if len(f) != 4 {
+			return vlib.Res{Impl: "bad-op"}
+		}
+		closeAll()
+		if f[2] != "n" && f[2] != "i" && f[2] != "r" {
+			return vlib.Res{Impl: "bad-op"}
+		}
+		env = newSysEnv(f[2], time.Duration(vlib.Atoi(f[3]))*time.Millisecond)
+		e := env
+		// warm-up: root priming settles, "hot" names of the recoverable zones get cached
+		var gs []*group
+		for z := range recoverable {
+			g := &group{pattern: "hot", zone: z, n: 1, tag: "w"}
+			e.build(g)
+			gs = append(gs, g)
+		}
+		sort.Slice(gs, func(i, j int) bool { return gs[i].zone < gs[j].zone })
+		e.launchShort(gs, 1500*time.Millisecond)
+		warm := 0
+		for _, g := range gs {
+			for _, c := range g.clients {
+				if len(c.replies) == 1 && c.replies[0].rcode == 0 {
+					warm++
+				}
+			}
+		}
+		waitFor(3*time.Second, e.srv.Quiesced)
+		time.Sleep(150 * time.Millisecond)
+		e.baseG, e.baseAll = sdnsGoroutines()
+		slab, _, _, inline := server.VerifC11UDP(e.srv)
+		or := "ok"
+		if warm != len(gs) {
+			or = fmt.Sprintf("FAIL sig=sys/warm-up/healthy-zone-unanswered warm=%d of %d", warm, len(gs))
+		}
+		return vlib.Res{Impl: "up", Oracle: or, Tags: fmt.Sprintf("inline=%s,slabcap=%d,baseg=%d", vlib.B(inline), slab, e.baseG)}
+	case "wave":
+		if env == nil || len(f) != 3 {
+			return vlib.Res{Impl: "bad-op"}
+		}
+		e := env
+		gs := parseGroups(f[2])
+		if gs == nil {
+			return vlib.Res{Impl: "bad-op"}
+		}
+		e.serial++
+		for _, g := range gs {
+			g.tag = fmt.Sprintf("%sw%d", g.tag, e.serial)
+			e.build(g)
+		}
+		e.launch(gs)
+		v := e.judge(gs)
+		// a SERVFAIL for a zone a conformant resolver can resolve, with ample
+		// capacity: only a failure if it reproduces (scheduling noise does not)
+		if v.fail == "" && len(v.soft) > 0 {
+			var again []*group
+			for _, g := range v.soft {
+				e.serial++
+				g2 := &group{pattern: g.pattern, zone: g.zone, n: g.n, tag: fmt.Sprintf("r%d", e.serial)}
+				e.build(g2)
+				again = append(again, g2)
+			}
+			e.launch(again)
+			v2 := e.judge(again)
+			if v2.fail != "" {
+				v.fail = v2.fail
+			} else if len(v2.soft) > 0 {
+				g := v2.soft[0]
+				v.fail = fmt.Sprintf("FAIL sig=sys/resolvable-zone-failed/%s/%s reproduced twice", g.pattern, g.zone)
+			}
+			v.tags = append(v.tags, "soft-retry")
+		}
+		or := "ok"
+		if v.fail != "" {
+			or = v.fail
+		}
+		return vlib.Res{Impl: "done", Oracle: or, Tags: "nt," + strings.Join(v.tags, ",") + fmt.Sprintf(",maxlat_ms=%d", e.maxLat.Milliseconds())}
+	case "shift":
+		if env == nil || len(f) != 3 {
+			return vlib.Res{Impl: "bad-op"}
+		}
+		waitFor(3*time.Second, env.srv.Quiesced)
+		cache.VerifShift(env.cache, time.Duration(vlib.Atoi(f[2]))*time.Millisecond)
+		return vlib.Res{Impl: "shifted"}
+	case "drain":
+		if env == nil {
+			return vlib.Res{Impl: "bad-op"}
+		}
+		e := env
+		t0 := time.Now()
+		q := waitFor(5*time.Second, e.srv.Quiesced)
+		qd := time.Since(t0)
+		keys := -1
+		waitFor(5*time.Second, func() bool { keys = cache.VerifC11DedupKeys(e.cache); return keys == 0 })
+		g, all := 0, 0
+		waitFor(6*time.Second, func() bool { g, all = sdnsGoroutines(); return g <= e.baseG+50 })
+		_, leased, inflight, _ := server.VerifC11UDP(e.srv)
+		or := "ok"
+		switch {
+		case !q:
+			or = fmt.Sprintf("FAIL sig=sys/drain/not-quiesced leased=%d inflight=%d", leased, inflight)
+		case keys != 0:
+			or = fmt.Sprintf("FAIL sig=sys/drain/dedup-generation-leaked keys=%d", keys)
+		case g > e.baseG+50:
+			or = fmt.Sprintf("FAIL sig=sys/drain/goroutine-leak base=%d now=%d", e.baseG, g)
+		}
+		return vlib.Res{Impl: "drained", Oracle: or, Tags: fmt.Sprintf("nt,quiesce_ms=%d,g=%d,baseg=%d,gall=%d,maxlat_ms=%d", qd.Milliseconds(), g, e.baseG, all, e.maxLat.Milliseconds())}
+	case "end":
+		closeAll()
+		return vlib.Res{Impl: "closed"}
+	}
+	return vlib.Res{Impl: "bad-op"}
+}
+
+func (e *sysEnv) launchShort(gs []*group, listen time.Duration) {
+	var wg sync.WaitGroup
+	for _, g := range gs {
+		for _, c := range g.clients {
+			c := c
+			wg.Add(1)
+			go func() {
+				defer wg.Done()
+				if c.kind == "udp" {
+					e.runUDPUntilReply(c, listen)
+				} else {
+					e.runTCP([]*client{c}, 400*time.Millisecond, 0)
+				}
+			}()
+		}
+	}
+	wg.Wait()
+}
+
+// runUDPUntilReply is runUDP that stops at the first matching reply (warm-up only).
+func (e *sysEnv) runUDPUntilReply(c *client, listen time.Duration) {
+	conn, err := net.Dial("udp", e.addr)
+	if err != nil {
+		return
+	}
+	defer conn.Close()
+	b, _ := e.newQuery(c).Pack()
+	c.sent = time.Now()
+	conn.Write(b)
+	buf := make([]byte, 65535)
+	for len(c.replies) == 0 {
+		conn.SetReadDeadline(c.sent.Add(listen))
+		n, err := conn.Read(buf)
+		if err != nil {
+			return
+		}
+		c.note(buf[:n], time.Since(c.sent))
+	}
+}
+
+func waitFor(max time.Duration, cond func() bool) bool {
+	dl := time.Now().Add(max)
+	for {
+		if cond() {
+			return true
+		}
+		if time.Now().After(dl) {
+			return false
+		}
+		time.Sleep(10 * time.Millisecond)
+	}
+}
